@@ -1,14 +1,14 @@
 SPECIFICATION GenSpec
 CONSTANTS
   Dirs <- GenDirs
-  TypeEncs <- GenTypeEncsQuick
+  TypeEncs <- GenMeshTypeEncs
   Maxes <- GenMaxesQuick
-  Methods <- GenMethodsQuick
+  Methods <- GenOneMethod
   Shardings <- GenShardings
-  Codes <- GenCodesQuick
-  MeshDirs <- GenNone
-  MeshNames <- GenNone
-  Tables <- GenNone
+  Codes <- GenNone
+  MeshDirs <- GenMeshDirs
+  MeshNames <- GenMeshNamesQuick
+  Tables <- GenTablesQuick
   MeshRewritesInfo = "keepAll"
   CfgSpace <- GenCfg
   MaxLen = 5
